@@ -172,6 +172,15 @@ def run(tier, seed, replay=None):
             stats['lexerror'] += 1
             continue
         except Exception as e:
+            import traceback as _tb
+            frames_ = _tb.extract_tb(e.__traceback__)
+            in_reporter = any(fr.filename.endswith('/mindsdb_sql/__init__.py') and fr.name != 'parse_sql' for fr in frames_) or \
+                any(fr.name == 'error' for fr in frames_)
+            if not in_reporter:
+                # an internal error of a grammar action (a statement the grammar accepts): not a report about a rejected statement;
+                # exception hygiene of parse_sql is C02's subject, where these are judged and listed
+                stats['internal_error_in_action'] = stats.get('internal_error_in_action', 0) + 1
+                continue
             stats['other_exception'] += 1
             fd = [f for f in findings if f['classifier'].get('kind') == 'reporter_crash' and f['classifier']['exception'] == type(e).__name__]
             if fd:
